@@ -5,6 +5,7 @@ import (
 	"go/ast"
 	"go/token"
 	"go/types"
+	"strconv"
 	"strings"
 
 	"mlverif/core"
@@ -40,6 +41,7 @@ func (c *Ctx) refuteModel() *handlerModel {
 	spec := &hSpec{c: c, kind: "refute", fn: target}
 	spec.recv = p.Info.Defs[target.Decl.Recv.List[0].Names[0]]
 	x := gea.New(p, target.Name, target.Decl.Type, target.Decl.Body, spec)
+	x.InlineCallee = c.inlinePolicy
 	for _, f := range target.Decl.Type.Params.List {
 		for _, n := range f.Names {
 			switch {
@@ -300,67 +302,112 @@ func init() {
 // refuteBeats decides, for one path's store to the record's incarnation,
 // whether the stored value is provably above the accused incarnation.
 func refuteBeats(c *Ctx, r *handlerModel, e *gea.Effect, name func(ast.Expr) string) (bool, string) {
+	return beatsIn(c, r.fn, r.x, e.Detail["val"], e.Cube, 0)
+}
+
+// beatsIn: inside fn (explored as x, with the accused incarnation aliased
+// "accused"), the value named val is above the accused incarnation under the
+// path condition cube. val is the advanced counter (then the path condition
+// must entail counter > accused), the counter skipped forward by
+// accused - counter + k, k >= 1, or the result of a same-package helper that
+// is given the accused incarnation and whose every return beats it (so the
+// arithmetic may live in a helper).
+func beatsIn(c *Ctx, fn *core.Func, x *gea.Exec, val string, cube map[string]string, depth int) (bool, string) {
 	p := c.P
-	val := e.Detail["val"]
+	name := func(e ast.Expr) string { return x.Canon(e, nil) }
 	// find the calls that produced candidate values
 	var first, skip *ast.CallExpr
-	ast.Inspect(r.fn.Decl.Body, func(n ast.Node) bool {
+	var helpers []*ast.CallExpr
+	inspectFn(fn, func(n ast.Node) bool {
 		call, ok := n.(*ast.CallExpr)
 		if !ok {
 			return true
 		}
-		if f := p.Callee(call); f != nil && f.Pkg() == p.Types {
+		if f := p.Callee(call); f != nil && f.Pkg() == p.Types && p.ByObj[f] != nil {
 			if fld, arg := addHelper(p, p.ByObj[f]); fld == "Memberlist.incarnation" {
 				if v, isC := p.ConstInt(arg); isC && v >= 1 && len(call.Args) == 0 {
 					first = call
 				} else if len(call.Args) == 1 {
 					skip = call
 				}
+			} else if len(call.Args) == 1 && name(call.Args[0]) == "accused" && isUint32(p.TypeOf(call)) {
+				helpers = append(helpers, call)
 			}
 		}
 		return true
 	})
-	if first == nil {
-		return false, "no call to the incarnation-advancing helper (Add(1)) found"
+	// the value is produced by a helper that is handed the accused incarnation
+	for _, h := range helpers {
+		if depth < 3 && strings.HasPrefix(val, x.Canon(h.Fun, nil)+"(accused)") {
+			hf := p.ByObj[p.Callee(h)]
+			alias := map[string]string{}
+			for _, f := range hf.Decl.Type.Params.List {
+				for _, n := range f.Names {
+					alias[n.Name] = "accused"
+				}
+			}
+			hx := c.flow(hf, alias)
+			n := 0
+			for _, ex := range hx.Exits {
+				if len(ex.Ret) != 1 {
+					continue
+				}
+				n++
+				if ok, why := beatsIn(c, hf, hx, ex.Ret[0], ex.Cube, depth+1); !ok {
+					return false, hf.Name + ": " + why
+				}
+			}
+			if n == 0 {
+				return false, hf.Name + " has no analysable return"
+			}
+			return true, ""
+		}
 	}
-	firstName := r.x.Canon(first.Fun, nil) + "()" + r.x.Tok(first.Pos())
+	if first == nil {
+		return false, "no call to the incarnation-advancing helper (Add(1)) found in " + fn.Name
+	}
+	// call results are named by the value of their receiver; inside a helper
+	// explored in place that is the caller's receiver
+	firstName := x.Canon(first.Fun, nil) + "()" + x.Tok(first.Pos())
+	if se, ok := ast.Unparen(first.Fun).(*ast.SelectorExpr); ok {
+		alt := "m." + se.Sel.Name + "()" + x.Tok(first.Pos())
+		if val == alt || strings.Contains(val, alt) {
+			firstName = alt
+		}
+		for k := range cube {
+			if strings.Contains(k, alt) {
+				firstName = alt
+			}
+		}
+	}
+	skipSel := ""
+	if skip != nil {
+		if se, ok := ast.Unparen(skip.Fun).(*ast.SelectorExpr); ok {
+			skipSel = "." + se.Sel.Name + "("
+		}
+	}
 	switch {
 	case val == firstName:
 		// not skipped: the path condition must entail inc > accused
-		a, b := "accused", firstName
-		rel := ""
-		if a < b {
-			rel = e.Cube["cmp("+a+","+b+")"]
-		} else {
-			switch e.Cube["cmp("+b+","+a+")"] {
-			case "LT":
-				rel = "GT"
-			case "GT":
-				rel = "LT"
-			case "EQ":
-				rel = "EQ"
-			}
-		}
+		rel := relOf(cube, "accused", firstName)
 		if rel == "LT" {
 			return true, ""
 		}
-		return false, fmt.Sprintf("path stores the un-skipped incarnation although accused %s inc is possible {%s}", map[string]string{"": "?", "EQ": "==", "GT": ">"}[rel], gea.CubeString(e.Cube))
-	case skip != nil && strings.HasPrefix(val, r.x.Canon(skip.Fun, nil)+"("):
-		co, k, ok := linear(p, skip.Args[0], name)
-		var incVar string
-		// the variable holding the first value
-		ast.Inspect(r.fn.Decl.Body, func(n ast.Node) bool {
-			if as, ok := n.(*ast.AssignStmt); ok && len(as.Rhs) == 1 && ast.Unparen(as.Rhs[0]) == ast.Expr(first) {
-				incVar = name(as.Lhs[0])
-			}
-			return true
-		})
-		if !ok || co["accused"] != 1 || co[incVar] != -1 || len(nonzero(co)) != 2 || k < 1 {
-			return false, fmt.Sprintf("skip offset %s is not accused - inc + k with k >= 1", types.ExprString(skip.Args[0]))
+		return false, fmt.Sprintf("path yields the un-skipped incarnation although accused %s inc is possible {%s}", map[string]string{"": "?", "EQ": "==", "GT": ">"}[rel], gea.CubeString(cube))
+	case skipSel != "" && strings.Contains(val, skipSel):
+		// the offset, read from the value's own name: accused - counter + k, k >= 1
+		i := strings.Index(val, skipSel) + len(skipSel)
+		j := strings.LastIndex(val, ")")
+		if j <= i {
+			return false, "cannot read the skip offset from " + val
+		}
+		co, k, ok := linearName(val[i:j])
+		if !ok || co["accused"] != 1 || co[firstName] != -1 || len(nonzero(co)) != 2 || k < 1 {
+			return false, fmt.Sprintf("skip offset %s is not accused - inc + k with k >= 1", val[i:j])
 		}
 		return true, ""
 	}
-	return false, "stored incarnation " + val + " is neither the advanced counter nor the skipped counter"
+	return false, "incarnation " + val + " is neither the advanced counter, the skipped counter, nor the result of a helper proven to beat the accused incarnation"
 }
 
 func nonzero(m map[string]int64) []string {
@@ -418,7 +465,7 @@ func decodesClaim(p *core.Prog, fn *core.Func, s *core.Site) bool {
 	}
 	obj := p.Info.Uses[id]
 	found := false
-	ast.Inspect(fn.Decl.Body, func(n ast.Node) bool {
+	inspectFn(fn, func(n ast.Node) bool {
 		call, ok := n.(*ast.CallExpr)
 		if !ok || len(call.Args) < 2 {
 			return true
@@ -451,7 +498,7 @@ func buildsClaimLocally(p *core.Prog, fn *core.Func, s *core.Site) bool {
 	}
 	obj := p.Info.Uses[id]
 	found := false
-	ast.Inspect(fn.Decl.Body, func(n ast.Node) bool {
+	inspectFn(fn, func(n ast.Node) bool {
 		switch v := n.(type) {
 		case *ast.AssignStmt:
 			for i, l := range v.Lhs {
@@ -485,7 +532,7 @@ func bootstrapClaimFresh(c *Ctx, s *core.Site) (bool, string) {
 	}
 	obj := p.Info.Uses[id]
 	res, why := false, "no literal found"
-	ast.Inspect(s.Fn.Decl.Body, func(n ast.Node) bool {
+	inspectFn(s.Fn, func(n ast.Node) bool {
 		as, ok := n.(*ast.AssignStmt)
 		if !ok {
 			return true
@@ -539,4 +586,35 @@ func bootstrapClaimFresh(c *Ctx, s *core.Site) (bool, string) {
 		return true
 	})
 	return res, why
+}
+
+// linearName reads a sum/difference of atoms and integer constants from a
+// canonical value name ("((accused-X)+1)").
+func linearName(s string) (map[string]int64, int64, bool) {
+	co := map[string]int64{}
+	var k int64
+	var walk func(s string, sign int64, depth int) bool
+	walk = func(s string, sign int64, depth int) bool {
+		if depth > 8 {
+			return false
+		}
+		if v, err := strconv.ParseInt(s, 10, 64); err == nil {
+			k += sign * v
+			return true
+		}
+		if l, op, r, ok := splitBinName(s); ok {
+			rs := sign
+			if op == "-" {
+				rs = -sign
+			}
+			return walk(l, sign, depth+1) && walk(r, rs, depth+1)
+		}
+		if s == "" {
+			return false
+		}
+		co[s] += sign
+		return true
+	}
+	ok := walk(s, 1, 0)
+	return co, k, ok
 }
